@@ -19,7 +19,9 @@ ASSUMPTIONS = ["per-bank FIFO order of accepted commands (property C01/C02) is u
 # (base config name, nbanks, ncols, nranks, bank_byte_alignment in rows (0 = none))
 GEOMS_QUICK = [("SDR", 4, 256, 1, 0), ("SDR", 2, 2048, 1, 0), ("DDR", 4, 1024, 1, 2), ("DDR2", 8, 512, 1, 0),
                ("DDR3", 8, 1024, 1, 0), ("DDR3", 8, 2048, 2, 0), ("DDR3", 4, 4096, 1, 1), ("DDR4", 16, 1024, 1, 4),
-               ("DDR3_half", 8, 2048, 1, 2), ("LPDDR", 2, 512, 2, 0), ("SDR2", 4, 2048, 1, 0), ("DDR4", 16, 4096, 2, 0)]
+               ("DDR3_half", 8, 2048, 1, 2), ("LPDDR", 2, 512, 2, 0), ("SDR2", 4, 2048, 1, 0), ("DDR4", 16, 4096, 2, 0),
+               # large alignments: the bank-select field near / at the top of the row bits (nrows = 2048)
+               ("SDR", 4, 256, 1, 512), ("DDR3", 8, 1024, 1, 1024), ("DDR", 4, 512, 2, 2048)]
 
 
 def addr_set(aw, rnd, nrand):
@@ -53,7 +55,7 @@ def scenarios(tier, seed):
     geoms = list(GEOMS_QUICK)
     for base in ["SDR", "SDR2", "DDR", "LPDDR", "DDR2", "DDR3", "DDR3_half", "DDR4"]:
         for ncols in [256, 512, 1024, 2048, 4096]:
-            geoms.append((base, rnd.choice([2, 4, 8, 16]), ncols, rnd.choice([1, 1, 2]), rnd.choice([0, 0, 1, 2, 4])))
+            geoms.append((base, rnd.choice([2, 4, 8, 16]), ncols, rnd.choice([1, 1, 2]), rnd.choice([0, 0, 1, 2, 4, 64, 256, 512, 1024, 2048])))
     return [_mk(i, g, seed, 150) for i, g in enumerate(dict.fromkeys(geoms))]
 
 
